@@ -119,6 +119,11 @@ def make_pair_freq(p):
     # overall magnitude of the mass (unit systems differ by many orders of magnitude: SI panels with m,n >= 11
     # have mass-matrix column sums below 1e-12)
     Ma = Ma * p.get('mass_mag', 1.0)
+    if p.get('mass_spread'):
+        # masses spread over several decades (lumped equipment on a light skin, rotary next to translational inertia):
+        # the spectrum then spans more than six decades
+        dd = 10 ** rng.uniform(-p['mass_spread'] / 4.0, p['mass_spread'] / 4.0, na)
+        Ma = Ma * dd[:, None] * dd[None, :]
     # scale so that the lowest circular frequency is p['w_min']
     w2 = eigh(Ka, Ma, eigvals_only=True)
     Ka = Ka * (p['w_min'] ** 2 / w2.min())
